@@ -322,6 +322,42 @@ def run(tier="quick", seed=0, repo="/repo"):
                                 prefit=pd.DataFrame(np.arange(9.0)))
             if ok:
                 rec.case(("stub-prefit", n, cps), True, None)
+    # part A2: histories - the anomaliser is refitted after the user reconfigured / replaced the wrapped detector; every fit must work
+    # on a fresh clone of the detector as it is configured at that time
+    from skchange.anomaly_detectors import StatThresholdAnomaliser
+    for n in (5, 6, 7):
+        x = data_vectors(rng, n, 1)[0] * 3
+        subsets = [c for k in range(3) for c in itertools.combinations(range(1, n), k)]
+        for cps1 in subsets:
+            for cps2 in subsets:
+                if cps1 == cps2:
+                    continue
+                for how in ("set_params-on-held-detector", "attribute-assignment"):
+                    want, tie = expected_anomalies(x, cps2, np.mean, -1.0, 1.0)
+                    if tie:
+                        continue
+                    inner = stub(cps1)
+                    anom = StatThresholdAnomaliser(inner, stat=np.mean, stat_lower=-1.0, stat_upper=1.0)
+                    X = represent(x, "df")
+                    inp = {"part": "A2", "x": x, "changepoints": cps1, "changepoints2": cps2, "how": how}
+                    try:
+                        anom.fit(X)
+                        anom.predict(X)
+                        if how == "set_params-on-held-detector":
+                            inner.set_params(changepoints=tuple(cps2))
+                        else:
+                            anom.change_detector = stub(cps2)
+                        anom.fit(X)
+                        got = sorted(read_intervals(anom.predict(X)))
+                    except Exception as e:                                      # noqa: BLE001
+                        rec.violation("StatThresholdAnomaliser.refit:raises", f"refit after {how} raised {type(e).__name__}: {str(e)[:120]}", "C17.clone", inp)
+                        continue
+                    if got != want:
+                        rec.violation("StatThresholdAnomaliser.refit:stale-clone",
+                                      f"StatThresholdAnomaliser fitted with changepoints {list(cps1)}, wrapped detector then changed to {list(cps2)} "
+                                      f"({how}) and refitted on x={np.asarray(x).tolist()}: reported {got}, the out-of-range segments of the current "
+                                      f"detector are {want}", "C17.clone", inp)
+                    rec.case(("refit", n, cps1, cps2, how), bool(want), inp if len(cps2) == 2 and how.startswith("set") else None)
     # part B
     seeds = [seed] if tier == "quick" else [seed, seed + 1, seed + 2]
     for sd in seeds:
@@ -357,6 +393,21 @@ def replay(inp, repo="/repo"):
     use_repo(repo)
     rec = Recorder()
     x = np.array(inp["x"], dtype=float)
+    if inp.get("part") == "A2":
+        from skchange.anomaly_detectors import StatThresholdAnomaliser
+        cps1, cps2 = tuple(inp["changepoints"]), tuple(inp["changepoints2"])
+        want, _ = expected_anomalies(x, cps2, np.mean, -1.0, 1.0)
+        inner = stub(cps1)
+        anom = StatThresholdAnomaliser(inner, stat=np.mean, stat_lower=-1.0, stat_upper=1.0)
+        X = represent(x, "df")
+        anom.fit(X); anom.predict(X)
+        if inp["how"].startswith("set"):
+            inner.set_params(changepoints=cps2)
+        else:
+            anom.change_detector = stub(cps2)
+        anom.fit(X)
+        got = sorted(read_intervals(anom.predict(X)))
+        return {"violated": got != want, "detail": f"reported {got}, expected {want}"}
     if inp.get("part") == "A":
         cps = tuple(int(c) for c in inp["changepoints"])
         name, make = "GivenChangepoints", (lambda: stub(cps))
